@@ -14,7 +14,7 @@ RULE = ('random signature shape (fn / class __init__ / class __new__ / registere
         'unfilled names in signature order (body not run), else reception computed by CPython\'s binder with the marker replaced in place. '
         'distinct = (shape, api, signature features, marker placement classes, filled/missing counts, scope depth)')
 TIERS = {
-    'quick': {'workers': 8, 'cases': 900, 'timeout': 600},
+    'quick': {'workers': 8, 'cases': 3600, 'timeout': 600},
     'thorough': {'workers': 16, 'cases': 30000, 'timeout': 3000},
 }
 REQUIRED_BUCKETS = ['shape:fn', 'shape:init', 'shape:new', 'shape:method', 'mark:positional', 'mark:keyword', 'mark:signature', 'mark:varkw-extra',
